@@ -35,8 +35,11 @@ def passing_tests(repo):
 
 
 def run_demo(repo, demo):
-    p = subprocess.run(["/venv/bin/python", demo], cwd=repo, capture_output=True, text=True, timeout=600,
-                       env={k: v for k, v in os.environ.items() if k not in ("PYTHONPATH", "CNFGEN_VERIF")})
+    try:
+        p = subprocess.run(["/venv/bin/python", demo], cwd=repo, capture_output=True, text=True, timeout=900,
+                           env={k: v for k, v in os.environ.items() if k not in ("PYTHONPATH", "CNFGEN_VERIF")})
+    except subprocess.TimeoutExpired:
+        return -9, "demo timed out"
     return p.returncode, (p.stdout + p.stderr)[-400:]
 
 
